@@ -12,6 +12,7 @@ CONSTANTS
   PeriodicFix = TRUE
   EnqAnywhere = TRUE
   Record = FALSE
+  MaxPre = 1
 INVARIANTS TypeOK OnlyLegalRemovals AcceptedOnly204InOrder DropOnly400 PurgeOnlyOld QueueInOrder PostInOrder WaitFollowsRule NoStrandedBatch
 VIEW View
 CHECK_DEADLOCK FALSE
